@@ -111,7 +111,7 @@ func TestDump(t *testing.T) {
 	os.WriteFile(out+"/go.mod", []byte("module example.com/m\n\ngo 1.26.0\n"), 0o644)
 	for i := 0; i < n; i++ {
 		p := rapid.Custom(func(rt *rapid.T) *Package {
-			return Generate(rt, "p", Config{Test: i%2 == 0, Families: fams, MinUnits: 10, MaxUnits: 30, Include: func(sig string) bool { return os.Getenv("EXOGEN_EXCLUDE") == "" }})
+			return Generate(rt, "p", Config{Test: i%2 == 0, Families: fams, MinUnits: envInt("EXOGEN_MIN", 10), MaxUnits: envInt("EXOGEN_MAX", 30), Include: func(sig string) bool { return os.Getenv("EXOGEN_EXCLUDE") == "" }})
 		}).Example(seed*100000 + i)
 		d := fmt.Sprintf("%s/p%d", out, i)
 		os.MkdirAll(d, 0o755)
@@ -120,4 +120,13 @@ func TestDump(t *testing.T) {
 			os.WriteFile(d+"/p_test.go", []byte(s), 0o644)
 		}
 	}
+}
+
+func envInt(name string, def int) int {
+	if v := os.Getenv(name); v != "" {
+		if n, err := strconv.Atoi(v); err == nil {
+			return n
+		}
+	}
+	return def
 }
